@@ -799,6 +799,158 @@ def observation_second_last(ctx):
              + ('reproduces on the implementation' if pick == [(1, 3)] else f'NO LONGER reproduces (implementation picks {pick})'))
 
 
+# ----------------------------------------------------------------------------------------------
+# call HISTORIES on one fitter object
+def gen_history(rng, kind=None):
+    """one x, one Baseline object, 3..6 loess calls with varying delta / total_points / strategy / mode / weights / data"""
+    kind = kind or ['uniform', 'random', 'clustered', 'intgrid', 'geometric', 'biggap'][int(rng.integers(0, 6))]
+    n = int(rng.choice([8, 12, 20, 35, 60]))
+    x = gen_x(rng, n, kind)
+    span = float(x[-1] - x[0])
+    gaps = np.diff(x)
+    tps = sorted({int(rng.integers(4, n + 1)), int(rng.integers(4, n + 1))})      # few values: repeats are likely
+    deltas = [None, 0.0, -1.0, float(gaps.min()) * 0.5, float(np.median(gaps)) * 1.5, 0.1 * span, 0.3 * span, span, 2 * span + 1]
+    calls = []
+    for k in range(int(rng.integers(3, 7))):
+        p = int(rng.choice([0, 1, 1, 2]))
+        kw = dict(total_points=int(rng.choice(tps)), poly_order=p, max_iter=int(rng.integers(0, 6)),
+                  delta=deltas[int(rng.integers(0, len(deltas)))], symmetric_weights=bool(rng.integers(0, 2)),
+                  tol=float(rng.choice([1e-3, 0.0])))
+        if kw['total_points'] < p + 3:
+            kw['total_points'] = min(n, p + 3)
+        if rng.random() < 0.3:
+            kw.update(use_threshold=True, use_original=bool(rng.integers(0, 2)))
+        if rng.random() < 0.25:
+            kw['weights'] = rng.uniform(0.05, 1, n)
+        y = gen_y(rng, x, ['smooth', 'peaks', 'noise'][int(rng.integers(0, 3))])
+        # strategy: biased towards the cached one, whose state could leak
+        calls.append({'y': y, 'kw': kw, 'conserve': bool(rng.random() < 0.3)})
+    return x, calls
+
+
+def call_on(fitter, y, kw, conserve):
+    try:
+        with warnings.catch_warnings():
+            warnings.simplefilter('ignore')
+            with np.errstate(all='ignore'):
+                b, p = fitter.loess(y, conserve_memory=conserve, return_coef=True, **kw)
+        return ('ok', np.asarray(b, dtype=float), np.asarray(p['weights'], dtype=float), np.asarray(p['coef'], dtype=float),
+                np.asarray(p['tol_history'], dtype=float))
+    except Exception as e:                                      # noqa: BLE001
+        return ('exc', type(e).__name__, str(e)[:200])
+
+
+def history_case(x, calls, upto=None):
+    cs = calls if upto is None else calls[:upto + 1]
+    return {'kind': 'history', 'x': x.tolist(),
+            'calls': [{'y': c['y'].tolist(), 'conserve': c['conserve'],
+                       'kw': {k: (v.tolist() if isinstance(v, np.ndarray) else v) for k, v in c['kw'].items()}} for c in cs]}
+
+
+def check_history(x, calls):
+    """runs the calls on ONE object; returns (index, what, key) of the first call whose result differs bitwise from the
+    same call on a fresh object or from the other strategy on a fresh object, else None"""
+    from pybaselines import Baseline
+    shared = Baseline(x)
+    for k, c in enumerate(calls):
+        got = call_on(shared, c['y'], c['kw'], c['conserve'])
+        fresh = call_on(Baseline(x), c['y'], c['kw'], c['conserve'])
+        other = call_on(Baseline(x), c['y'], c['kw'], not c['conserve'])
+        strat = 'conserve' if c['conserve'] else 'cached'
+        if not same_bits(got, fresh):
+            return k, (f'call {k + 1} of a history on one object (conserve_memory={c["conserve"]}, delta={c["kw"]["delta"]}, '
+                       f'total_points={c["kw"]["total_points"]}) differs from the same call on a fresh object: '
+                       f'{got[:3] if got[0] == "exc" else "ok"} vs {fresh[:3] if fresh[0] == "exc" else "ok"}'), f'history:{strat}:differs-from-fresh'
+        if not same_bits(got, other):
+            return k, (f'call {k + 1} of a history on one object (conserve_memory={c["conserve"]}) differs from the other strategy: '
+                       f'{got[:3] if got[0] == "exc" else "ok"} vs {other[:3] if other[0] == "exc" else "ok"}'), f'history:{strat}:strategies-differ'
+    return None
+
+
+def oracle_histories(ctx, budget):
+    rng = np.random.default_rng(ctx.seed * 1000 + 197)
+    for h in range(ctx.n(45, 400) * budget):
+        x, calls = gen_history(rng)
+        nontriv = len({(c['kw']['delta'], c['kw']['total_points']) for c in calls if not c['conserve']}) >= 2
+        ctx.case(('hist', x.tobytes(), repr([(c['conserve'], sorted((k, repr(v)) for k, v in c['kw'].items() if k != 'weights')) for c in calls])),
+                 nontrivial=nontriv, kind=f'history:calls={len(calls)}')
+        bad = check_history(x, calls)
+        if bad:
+            k, what, key = bad
+            ctx.fail(key, what, history_case(x, calls, upto=k))
+
+
+def correspondence_driver(ctx):
+    """trace validation of the driver's dispatch over call histories: which loop kernel runs in which iteration and
+    which kernel array it is given, against mode_schedule of C19/HistoryProofs.v"""
+    P, U = mods()
+    from pybaselines import Baseline
+    ob = 'correspondence:driver-dispatch(mode_schedule over call histories; cache produced in the same call)'
+    ctx.obligations.append(ob)
+    rng = np.random.default_rng(ctx.seed * 1000 + 198)
+    names = {'_loess_low_memory': 0, '_loess_first_loop': 1, '_loess_nonfirst_loops': 2}
+    orig = {n: getattr(P, n) for n in names}
+    trace = []
+
+    def wrap(name):
+        fn = orig[name]
+
+        def inner(*a):
+            out = fn(*a)
+            if name == '_loess_first_loop':
+                trace.append((1, id(out[0])))
+            elif name == '_loess_nonfirst_loops':
+                trace.append((2, id(a[4])))
+            else:
+                trace.append((0, None))
+            return out
+        return inner
+    lits, metas = [], []
+    try:
+        for n_ in names:
+            setattr(P, n_, wrap(n_))
+        for h in range(ctx.n(30, 250)):
+            x, calls = gen_history(rng)
+            shared = Baseline(x)
+            for c in calls:
+                trace.clear()
+                r = call_on(shared, c['y'], c['kw'], c['conserve'])
+                modes = [m for m, _ in trace]
+                made = [i for m, i in trace if m == 1]
+                used = [i for m, i in trace if m == 2]
+                same_call_cache = all(u == made[0] for u in used) if made else not used
+                iters_ok = r[0] != 'ok' or len(r[4]) == len(modes)
+                lits.append(f'({"true" if c["conserve"] else "false"}, {"[" + "; ".join(str(m) + "%nat" for m in modes) + "]"}, '
+                            f'{"true" if (same_call_cache and iters_ok) else "false"})')
+                metas.append(history_case(x, [c]))
+                ctx.case(('drv', x.tobytes(), c['y'].tobytes(), repr(modes)), nontrivial=len(modes) >= 2 and not c['conserve'], kind='driver-dispatch')
+                ctx.traces += 1
+    finally:
+        for n_ in names:
+            setattr(P, n_, orig[n_])
+    header = HEADER.replace('C19.Model C19.Float.', 'C19.Model C19.Float C19.HistoryProofs.')
+    failing = []
+    per = 400
+    for s0 in range(0, len(lits), per):
+        sh = lits[s0:s0 + per]
+        text = header + '\nDefinition cases : list (bool * list nat * bool) := [\n' + ';\n'.join('  ' + l for l in sh) + '\n].\n' + \
+            'Definition ok (c : bool * list nat * bool) : bool := let \'(cm, modes, same) := c in\n' \
+            '  same && (fix eqb (a b : list nat) : bool := match a, b with nil, nil => true | cons u a\', cons v b\' => Nat.eqb u v && eqb a\' b\' | _, _ => false end)\n' \
+            '            modes (mode_schedule cm (length modes)).\nEval vm_compute in (bad ok cases).\n'
+        vals = ctx.coq_eval(f'drv{s0 // per}', text)
+        import re
+        m = re.match(r'\((\d+)(?:%nat)?,\s*\[(.*)\]\)', vals[0]) if vals else None
+        if not m:
+            ctx.broke(ob, f'coqc evaluation failed: {vals}')
+            return
+        if int(m.group(1)):
+            failing += [s0 + int(t.replace('%nat', '')) for t in m.group(2).split(';') if t.strip()]
+    if failing:
+        ctx.broke(ob, f'{len(failing)} call(s): the kernels run by the driver differ from mode_schedule, first: {lits[failing[0]]}')
+    else:
+        ctx.discharged.append(ob)
+
+
 def run(ctx):
     ctx.rule = ('_determine_fits cases: x uniform/random/clustered/repeated/big-last-gap/integer/geometric, N 1..60 (oracle to 1500), '
                 'total_points 1..N (N, 1, N-1, 2 over-represented), delta 0, <0, below the smallest gap, a gap exactly, median gap, span, '
@@ -815,15 +967,20 @@ def run(ctx):
         'IEEE rounding: order/containment theorems are over Z (instance Num_Z, tied on integer x); structure theorems hold for every Num instance including binary64',
     ]
     ctx.gate()
-    ok = ctx.build_props(extra=['C19/Float.vo'])
+    ctx.translate(['GenLoessState'])
+    ok = ctx.build_props(extra=['C19/Float.vo', 'C19/HistoryProofs.vo'])
+    ok2 = ctx.build_props(rel='props/C19_state.v')
+    ok = ok and ok2
     correspondence_fits(ctx)
     correspondence_fill(ctx)
     correspondence_kernels(ctx)
+    correspondence_driver(ctx)
     budget = 1 if (ok and not ctx.broken) else 4
     oracle_fits(ctx, budget)
     oracle_loess(ctx, budget)
     oracle_poly(ctx, budget)
     oracle_bruteforce(ctx, budget)
+    oracle_histories(ctx, budget)
     observation_second_last(ctx)
     ctx.note(f'oracle budget x{budget}; not covered: 2-D, unsorted x (C02), non-finite data, N > 1500, poly_order > 3; '
              'compiled-vs-interpreted values compared within an array-ulp budget only for well-conditioned local systems '
@@ -840,6 +997,17 @@ def replay(rep):
         bad = spec_failures(x, len(x), tp, delta, *r)
         print('windows', np.asarray(r[0]).tolist(), 'fits', np.asarray(r[1]).tolist(), 'skips', np.asarray(r[2]).tolist())
         print('spec failures:', bad)
+        return 1 if bad else 0
+    if case.get('kind') == 'history':
+        x = np.array(case['x'])
+        calls = []
+        for c in case['calls']:
+            kw = dict(c['kw'])
+            if kw.get('weights') is not None:
+                kw['weights'] = np.array(kw['weights'])
+            calls.append({'y': np.array(c['y']), 'kw': kw, 'conserve': c['conserve']})
+        bad = check_history(x, calls)
+        print('history of', len(calls), 'loess calls on one object:', bad[1] if bad else 'every call equals the fresh-object result and the other strategy')
         return 1 if bad else 0
     if case.get('kind') == 'loess':
         x, y = np.array(case['x']), np.array(case['y'])
